@@ -47,11 +47,10 @@ func (o *Output) ReadFrom(r io.Reader) (int64, error) {
 		return bytesRead, err
 	}
 
-	script := make([]byte, l)
-	n, err = io.ReadFull(r, script)
-	bytesRead += int64(n)
+	script, err := readBytes(r, uint64(l))
+	bytesRead += int64(len(script))
 	if err != nil {
-		return bytesRead, errors.Wrapf(err, "lockingScript(%d): got %d bytes", l, n)
+		return bytesRead, errors.Wrapf(err, "lockingScript(%d): got %d bytes", l, len(script))
 	}
 
 	o.Satoshis = binary.LittleEndian.Uint64(satoshis)
